@@ -45,7 +45,13 @@ func ReadTreeReader(reader *bufio.Reader, format int) (*tree.Tree, error) {
 
 	switch format {
 	case FORMAT_NEWICK:
-		if reftree, err = newick.NewParser(reader).Parse(); err != nil {
+		// The text of the first tree is taken as ReadMultiTrees takes it (a tree may
+		// be written on several lines), so that both give the same first tree
+		var line string
+		if line, err = fileutils.ReadUntilSemiColon(reader); err != nil && line == "" {
+			return nil, err
+		}
+		if reftree, err = newick.NewParser(strings.NewReader(line)).Parse(); err != nil {
 			return nil, err
 		}
 	case FORMAT_NEXUS:
